@@ -129,6 +129,8 @@ impl<F: Float> FFT<F> {
             }
             return;
         }
+        // the twiddle stride below is relative to the table size, so the tables must already cover n
+        self.update_n(n);
         let buf = &mut self.bufs[0];
         buf.clear();
         buf.resize(v.len(), Complex::ZERO);
